@@ -15,10 +15,10 @@ import tempfile
 from vf.common import PY, REPO, ROOT
 
 
-def write_config(root: str, input_globs: list[str], output_dirs: list[str] | None = None, di: dict | None = None, force: bool | None = None) -> str:
+def write_config(root: str, input_globs: list[str], output_dirs: list[str] | None = None, di: dict | None = None, force: bool | None = None, template_dirs: list[str] | None = None) -> str:
 	cfg = {
 		'grammar': os.path.join(REPO, 'data/grammar.lark'),
-		'template_dirs': [os.path.join(REPO, 'data/cpp/template')],
+		'template_dirs': (template_dirs or []) + [os.path.join(REPO, 'data/cpp/template')],
 		'trans_mapping': os.path.join(REPO, 'data/i18n.yml'),
 		'input_globs': input_globs,
 		'exclude_patterns': [],
@@ -34,6 +34,19 @@ def write_config(root: str, input_globs: list[str], output_dirs: list[str] | Non
 	with open(path, 'w') as f:
 		json.dump(cfg, f, indent=1)  # JSON is YAML
 	return path
+
+
+def write_user_templates(root: str) -> str:
+	"""A user template directory (placed in front of the stock one) that uses the documented view hook emit_depends: list and dict types
+	ask for their standard headers. Returns the directory."""
+	tdir = os.path.join(root, 'tpl')
+	os.makedirs(os.path.join(tdir, 'type'), exist_ok=True)
+	for name, header in (('list_type', '<vector>'), ('dict_type', '<map>')):
+		with open(os.path.join(REPO, f'data/cpp/template/type/{name}.j2'), encoding='utf-8') as f:
+			stock = f.read()
+		with open(os.path.join(tdir, 'type', f'{name}.j2'), 'w', encoding='utf-8') as f:
+			f.write("{{- emit_depends('" + header + "') -}}\n" + stock)
+	return tdir
 
 
 def new_project_dir(prefix: str = 'vf-proj-') -> str:
